@@ -212,7 +212,9 @@ static void run_frame(const json &sc) {
 //        {"o":"req","cb":false}                      rpc.notify
 //        {"o":"rsp","k":n,"kind":"res"|"err","val":v} the peer answers the n-th request that has a callback (its real id is
 //                                                      taken from the bytes the Rpc sent), written by the framing's encoder
-//        {"o":"rsp","raw":"<id as JSON text>", ...}    a response whose id matches no request (hand-written JSON text)
+//        {"o":"rsp","raw":"<id as JSON text, or empty: no id member>","kind":"res"|"err"|"req"}
+//                                                      a result / error response (or an incoming request) whose id matches no
+//                                                      waiting request: null, string, array, fraction, out of int range, ...
 //        {"o":"adv","u":1}                            advance the virtual clock by u units of 1000/T ms, let the loop run
 //        {"o":"cleanup"}
 //   BODYOP ["req"] | ["rsp", k]   (k = 0: the request that is being completed, i.e. a duplicate)
@@ -289,10 +291,17 @@ struct RpcExec {
         Bytes b = to_rpc;
         deliver(b);
     }
-    void do_rsp_raw(const std::string &idtxt, int val) {
+    // a message from the peer whose id matches no waiting request: hand-written JSON text.  idtxt = the "id" member as JSON text
+    // ("" = no id member at all); kind = "res" (result response), "err" (error response), "req" (an incoming request for a
+    // method the Rpc does not serve).  Nothing may be completed by it.
+    void do_rsp_raw(const std::string &idtxt, const std::string &kind, int val) {
         for (int id : ids) if (id != 0 && std::to_string(id) == idtxt) return;   // would not be a stranger
-        std::string t = "{\"jsonrpc\":\"2.0\",\"id\":" + idtxt + ",\"result\":{\"v\":" + std::to_string(val) + "}}";
-        vh::T().line("{\"e\":\"Rsp\",\"k\":0,\"c\":0,\"v\":" + std::to_string(intern("{\"v\":" + std::to_string(val) + "}")) + "}");
+        std::string idm = idtxt.empty() ? std::string() : ",\"id\":" + idtxt;
+        std::string t; int c = 0; std::string v = "null";
+        if (kind == "err") { c = val < 0 ? val : -val - 1; t = "{\"jsonrpc\":\"2.0\",\"error\":{\"code\":" + std::to_string(c) + ",\"message\":\"x\"}" + idm + "}"; }
+        else if (kind == "req") t = "{\"jsonrpc\":\"2.0\",\"method\":\"nosuch\"" + idm + ",\"params\":[" + std::to_string(val) + "]}";
+        else { v = "{\"v\":" + std::to_string(val) + "}"; t = "{\"jsonrpc\":\"2.0\"" + idm + ",\"result\":" + v + "}"; }
+        vh::T().line("{\"e\":\"Rsp\",\"k\":0,\"c\":" + std::to_string(c) + ",\"v\":" + std::to_string(intern(v)) + "}");
         deliver(frame_text(t));
     }
     void apply(const json &op) {
@@ -300,7 +309,7 @@ struct RpcExec {
         if (o == "req") do_req(op.value("cb", true), op.value("body", json::array()));
         else if (o == "rsp") {
             if (cleaned) return;
-            if (op.contains("raw")) do_rsp_raw(op["raw"].get<std::string>(), next_val());
+            if (op.contains("raw")) do_rsp_raw(op["raw"].get<std::string>(), op.value("kind", std::string("res")), next_val());
             else do_rsp_k(op.at("k").get<size_t>(), op.value("kind", std::string("res")), op.contains("val") ? op["val"].get<int>() : next_val());
         } else if (o == "adv") {
             g_vnow += (uint64_t)op.value("u", 1) * unit_ms;
